@@ -17,16 +17,17 @@
 enum { V_READ_MAX = 4096 };
 
 extern "C++" {
-std::istream &v_model_istream_read(std::istream *self, char *s, std::streamsize n) __asm__("_ZNSi4readEPcl");
-std::streampos v_model_istream_tellg(std::istream *self) __asm__("_ZNSi5tellgEv");
-std::istream &v_model_istream_seekg_off(std::istream *self, std::streamoff off, std::ios_base::seekdir dir) __asm__("_ZNSi5seekgElSt12_Ios_Seekdir");
-std::istream &v_model_istream_seekg_pos(std::istream *self, std::streampos pos) __asm__("_ZNSi5seekgESt4fposI11__mbstate_tE");
+std::istream &v_model_istream_read(VStream *vs, char *s, std::streamsize n) __asm__("_ZNSi4readEPcl");
+std::streampos v_model_istream_tellg(VStream *vs) __asm__("_ZNSi5tellgEv");
+std::istream &v_model_istream_seekg_off(VStream *vs, std::streamoff off, std::ios_base::seekdir dir) __asm__("_ZNSi5seekgElSt12_Ios_Seekdir");
+std::istream &v_model_istream_seekg_pos(VStream *vs, std::streampos pos) __asm__("_ZNSi5seekgESt4fposI11__mbstate_tE");
 std::ostream &v_model_ostream_write(std::ostream *self, const char *s, std::streamsize n) __asm__("_ZNSo5writeEPKcl");
 std::ostream &v_model_ostream_flush(std::ostream *self) __asm__("_ZNSo5flushEv");
 }
 
-std::istream &v_model_istream_read(std::istream *self, char *s, std::streamsize n) {
-  VStream *vs = reinterpret_cast<VStream *>(self);
+// (the parameter is declared as VStream*: the symbol is what matters at link time, and no access is typed through std::istream)
+std::istream &v_model_istream_read(VStream *vs, char *s, std::streamsize n) {
+  std::istream *self = reinterpret_cast<std::istream *>(vs);
   vs->gcount = 0;
   if (vs->failed || n <= 0) return *self;
   uint64_t lim = vs->size < vs->fail_at ? vs->size : vs->fail_at;
@@ -41,8 +42,7 @@ std::istream &v_model_istream_read(std::istream *self, char *s, std::streamsize 
   return *self;
 }
 
-std::streampos v_model_istream_tellg(std::istream *self) {
-  VStream *vs = reinterpret_cast<VStream *>(self);
+std::streampos v_model_istream_tellg(VStream *vs) {
   if (vs->failed) return std::streampos(std::streamoff(-1));
   return std::streampos(std::streamoff(vs->pos));
 }
@@ -53,15 +53,15 @@ static void v_seek(VStream *vs, int64_t target) {
   vs->pos = (uint64_t)target;
 }
 
-std::istream &v_model_istream_seekg_off(std::istream *self, std::streamoff off, std::ios_base::seekdir dir) {
-  VStream *vs = reinterpret_cast<VStream *>(self);
+std::istream &v_model_istream_seekg_off(VStream *vs, std::streamoff off, std::ios_base::seekdir dir) {
+  std::istream *self = reinterpret_cast<std::istream *>(vs);
   int64_t base = dir == std::ios_base::beg ? 0 : dir == std::ios_base::cur ? (int64_t)vs->pos : (int64_t)vs->size;
   v_seek(vs, base + (int64_t)off);
   return *self;
 }
 
-std::istream &v_model_istream_seekg_pos(std::istream *self, std::streampos pos) {
-  VStream *vs = reinterpret_cast<VStream *>(self);
+std::istream &v_model_istream_seekg_pos(VStream *vs, std::streampos pos) {
+  std::istream *self = reinterpret_cast<std::istream *>(vs);
   v_seek(vs, (int64_t)std::streamoff(pos));
   return *self;
 }
